@@ -304,8 +304,19 @@ func c14CheckLoad(ctx *vfCtx, c c14LoadCase) {
 	}
 
 	raws := make([]json.RawMessage, 0, len(items))
+	copies := map[string]int{}
 	for _, it := range items {
-		raws = append(raws, append(json.RawMessage{}, it.Raw...))
+		raw := append(json.RawMessage{}, it.Raw...)
+		if it.Class == c14ClassOK && it.ID != "" {
+			copies[it.ID]++
+			if n := copies[it.ID]; n > 1 && n%2 == 0 && it.Tree.K == 'o' {
+				// every other repeat of a PDU arrives as other BYTES of the same event (servers attach their
+				// own unsigned section, which is neither hashed nor signed nor part of the event ID)
+				raw = json.RawMessage(jplain(it.Tree.with("unsigned", jobj("age", jnum(int64(1000+n))))))
+				ctx.Class("input:same-pdu-twice/other-bytes")
+			}
+		}
+		raws = append(raws, raw)
 	}
 	lists := [2][]c14Item{items, nil}
 	order := TopologicalOrderByPrevEvents
